@@ -10,10 +10,10 @@ package eval
 
 //@ func contains C04 C05 C20
 //@   requires [comparable-target] (not (uncmp $target))
-//@   ensures [member] (= $ret0 (exists ((k Int)) (and (<= 0 k) (< k (len $params)) (= (idx $params k) $target))))
+//@   ensures [member] (= $ret0 (exists ((j Int)) (and (<= (off $params) j) (< j (+ (off $params) (len $params))) (= (select (arr $params) j) $target))))
 //@   loop 1 (rangeindex)
 //@     invariant [range] (and (<= -1 $rangeindex) (< $rangeindex (len $params)))
-//@     invariant [none-before] (forall ((k Int)) (=> (and (<= 0 k) (<= k $rangeindex)) (not (= (idx $params k) $target))))
+//@     invariant [none-before] (forall ((j Int)) (! (=> (and (<= (off $params) j) (<= j (+ (off $params) $rangeindex))) (not (= (select (arr $params) j) $target))) :pattern ((select (arr $params) j))))
 //@     decreases (- (len $params) $rangeindex)
 
 // ---------------------------------------------------------------------------
@@ -394,7 +394,7 @@ package eval
 
 //@ macro (ISAND $n) (and (or (= (KIND $n) 3) (= (KIND $n) 4)) (or (= (p_string (fld $n value)) "and") (= (p_string (fld $n value)) "&") (= (p_string (fld $n value)) "&&")))
 //@ macro (ISOR $n) (and (or (= (KIND $n) 3) (= (KIND $n) 4)) (or (= (p_string (fld $n value)) "or") (= (p_string (fld $n value)) "|") (= (p_string (fld $n value)) "||")))
-//@ macro (HAS $params $v) (exists ((k Int)) (and (<= 0 k) (< k (len $params)) (= (idx $params k) $v)))
+//@ macro (HAS $params $v) (exists ((j Int)) (and (<= (off $params) j) (< j (+ (off $params) (len $params))) (= (select (arr $params) j) $v)))
 
 //@ func executeOperatorProxy C04 C05
 //@   requires [node] (and (not (= $n 0)) (not (= (fld $n operator) 0)) (=> (or (= (KIND $n) 3) (= (KIND $n) 4)) (is.string (fld $n value))))
@@ -656,3 +656,13 @@ package eval
 //@             (>= (ext $i) $i@1) (= $err ENil)))
 //@     invariant [frame] (forall ((r Int)) (! (=> (< r (old (next))) (= (select (heap E_Value) r) (select (old (heap E_Value)) r))) :pattern ((select (heap E_Value) r))))
 //@     decreases (dep $i)
+
+//@ func Expr.TryEvalBool C04 C05 C06
+//@   requires [wf] (WFT $e)
+//@   requires [ctx] (and (not (= $ctx 0)) (not (= (fld $ctx VariableFetcher) 0)))
+//@   ensures [dne-is-ErrDNE] true
+//@   assigns next E_Value sent.* dyn.* last.err inv.*
+//@ func DestructParamsStr2 C06
+//@   ensures [ok-iff] (= (= $ret2 ENil) (and (= (len $params) 2) (is.string (idx $params 0)) (is.string (idx $params 1))))
+//@ func DestructParamsInt2 C06
+//@   ensures [ok-iff] (= (= $ret2 ENil) (and (= (len $params) 2) (is.int64 (idx $params 0)) (is.int64 (idx $params 1))))
